@@ -1,5 +1,10 @@
+mod blocks;
 mod bufsim;
 mod engine;
+mod datagen;
+mod hdlc;
+mod rig;
+mod rigcheck;
 mod rt;
 mod src;
 
@@ -9,6 +14,11 @@ fn checks() -> Vec<Box<dyn Check>> {
     vec![
         Box::new(bufsim::BufCheck { prop: "C01" }),
         Box::new(bufsim::BufCheck { prop: "C02" }),
+        Box::new(rigcheck::RigCheck { prop: "C08" }),
+        Box::new(rigcheck::RigCheck { prop: "C09" }),
+        Box::new(rigcheck::RigCheck { prop: "C10" }),
+        Box::new(rigcheck::RigCheck { prop: "C11" }),
+        Box::new(rigcheck::RigCheck { prop: "C12" }),
     ]
 }
 
